@@ -69,7 +69,7 @@ Proof.
 Qed.
 
 (* ---- a roomy header (limit 4000 instead of 255): the MaxCompactAttributes threshold decides ---- *)
-Definition roomy : params := mkParams 58 4000 8 18 371 65536 65517 false.
+Definition roomy : params := mkParams 58 4000 8 18 371 65536 65517 true.
 Definition ex2 : list op :=
   [ OWrite (nm "a0") (i32 0); OWrite (nm "a1") (i32 1); OWrite (nm "a2") (i32 2); OWrite (nm "a3") (i32 3);
     OWrite (nm "a4") (i32 4); OWrite (nm "a5") (i32 5); OWrite (nm "a6") (i32 6);
@@ -109,11 +109,11 @@ Example ex3_forms :
   end.
 Proof. vm_compute. repeat split; reflexivity. Qed.
 
-(* ---- heap overflow on the current tree: ONE WriteAttribute of a 65499-character string returns success and
-        leaves the model's domain (state Broken); on the Go side the attribute is lost (see the `hist`
-        reproduction in notes/c02-findings.md) ---- *)
+(* ---- heap overflow: before 5ec600b ONE WriteAttribute of a 65499-character string returned success and left the
+        model's domain (state Broken); on the Go side the attribute was lost (notes/c02-findings.md, F1).
+        Now the call is refused and nothing changes ---- *)
 Definition strN (k : N) : option value := str (N.to_nat k).
 Example overflow_single_write :
-  run lk3 (go_params 58) init [OWrite (nm "s") (strN 65499)] = (Broken, [ROk]) /\
-  run lk3 (go_params_repaired 58) init [OWrite (nm "s") (strN 65499)] = (Compact [], [RErr]).
+  run lk3 (go_params_before_5ec600b 58) init [OWrite (nm "s") (strN 65499)] = (Broken, [ROk]) /\
+  run lk3 (go_params 58) init [OWrite (nm "s") (strN 65499)] = (Compact [], [RErr]).
 Proof. split; vm_compute; reflexivity. Qed.
